@@ -88,6 +88,29 @@ EXTRA_STARTS = [
 ]
 
 
+def _other_names(meta):
+    """Index/constraint names are database-wide: the second model's named
+    entries get their own names (and its own table)."""
+    m = S.clone(meta)
+    for prop in ('indexes', 'constraints'):
+        for ent in m.get(prop, []):
+            if ent.get('name'):
+                ent['name'] = ent['name'] + '_o'
+    if m.get('db_table'):
+        m['db_table'] = m['db_table'] + '_o'
+    return m
+
+
+def mm2_project(meta_item, meta_other):
+    """Two models of ONE app, both with the V1 fields, each with its own
+    Meta options (hinted Meta changes of one model must not leak into the
+    other's)."""
+    return P(A('va', [M('Item', S.clone(starts.FIELDSETS['V1']),
+                        **S.clone(meta_item)),
+                      M('Other', S.clone(starts.FIELDSETS['V1']),
+                        **_other_names(meta_other))]))
+
+
 def mm_project(meta):
     return P(A('va', [M('Item', S.clone(starts.FIELDSETS['V1']),
                         **S.clone(meta))]))
@@ -309,6 +332,29 @@ def variants():
     list(list(b.app_sigs)[0].model_sigs)[0].add_index_sig(
         IndexSignature(fields=['a'], name=''))
     out.append(('index-name-None-vs-empty', a, b))
+    # the same attributes written in another order (dictionaries built by
+    # deconstruct() vs. by a loaded evolution file)
+    from django_evolution.signature import ConstraintSignature
+    from django.db.models import Q
+    attr_sets = [
+        [('fields', ('a',)), ('condition', Q(b__gt=0))],
+        [('fields', ('a',)), ('include', ('b',)), ('condition', Q(b__gt=0))],
+    ]
+    for n, items in enumerate(attr_sets):
+        a, b = base(), base()
+        for proj, its in ((a, items), (b, list(reversed(items)))):
+            ms = list(list(proj.app_sigs)[0].model_sigs)[0]
+            ms.add_constraint_sig(ConstraintSignature(
+                name='uq_r', constraint_type=models.UniqueConstraint,
+                attrs=dict(its)))
+        out.append(('reordered-constraint-attrs-%d' % n, a, b))
+        a, b = base(), base()
+        for proj, its in ((a, items), (b, list(reversed(items)))):
+            ms = list(list(proj.app_sigs)[0].model_sigs)[0]
+            d = dict(its)
+            ms.add_index_sig(IndexSignature(
+                name='ix_r', fields=list(d.pop('fields')), attrs=d))
+        out.append(('reordered-index-attrs-%d' % n, a, b))
     return out
 
 
@@ -342,6 +388,19 @@ def work(task):
             check_pair('meta', '%s->%s' % (n1, n2), mm_project(m1),
                        mm_project(m2), add, stats)
         stats['samples'].append('meta %s -> *' % n1)
+    elif kind == 'mm2':
+        i = payload
+        n1, m1 = MMX[i]
+        none = {}
+        for n2, m2 in MMX:
+            # both models change at once: Item none->m1, Other none->m2
+            check_pair('meta2', 'none,none->%s,%s' % (n1, n2),
+                       mm2_project(none, none), mm2_project(m1, m2), add,
+                       stats)
+            # ... and Item m1->m2 while Other m2->m1
+            check_pair('meta2', '%s,%s->%s,%s' % (n1, n2, n2, n1),
+                       mm2_project(m1, m2), mm2_project(m2, m1), add, stats)
+        stats['samples'].append('two models, meta %s x *' % n1)
     elif kind == 'succ':
         name, project, level = payload
         for label, mj in AL.enabled(project, level=level):
@@ -366,7 +425,8 @@ def work(task):
 def run(tier, seed, confirm=True):
     t0 = time.time()
     tasks = [('fm', i) for i in range(len(FM))] + \
-        [('mm', i) for i in range(len(MMX))] + [('variants', None)]
+        [('mm', i) for i in range(len(MMX))] + \
+        [('mm2', i) for i in range(len(MMX))] + [('variants', None)]
     level = 'lite' if tier == 'quick' else 'full'
     for name, p in starts.s1() + starts.s2() + starts.s3() + EXTRA_STARTS:
         tasks.append(('succ', (name, p, level)))
